@@ -89,8 +89,8 @@ def draw_knobs(ch, cache_variants=("default-locmem",)):
     }
 
 
-def start_world(knobs, mode):
-    w = world.World(id_seed=knobs["id_seed"])
+def start_world(knobs, mode, unique_ids=False):
+    w = world.World(id_seed=knobs["id_seed"], unique_ids=unique_ids)
     world.install(w)
     world.apply_config(mode=mode, template_cache_size=knobs["template_cache_size"],
                        cache_variant=knobs["cache_variant"])
